@@ -547,8 +547,9 @@ func cmdSlowAPI() {
 		wg.Add(1)
 		go func() { defer wg.Done(); emit(runPushFault(t, cf[0], cf[1])) }()
 	}
-	for i, h := range []string{"Size", "Head", "Size", "Head"} {
-		h, t, d := h, trial, time.Duration(150+250*(i/2))*time.Millisecond
+	// held before (Size, Head) or after (SizeDone, HeadDone) the call has taken its reading
+	for i, h := range []string{"Size", "Head", "SizeDone", "HeadDone", "SizeDone", "HeadDone"} {
+		h, t, d := h, trial, time.Duration(150+250*(i/4))*time.Millisecond
 		trial++
 		wg.Add(1)
 		go func() { defer wg.Done(); emit(runStaleTimer(t, h, d)) }()
@@ -746,7 +747,7 @@ func runPushFault(trial, capacity, fails int) pushFaultResult {
 type staleTimerResult struct {
 	Kind    string `json:"kind"` // staletimer
 	Trial   int    `json:"trial"`
-	Held    string `json:"old_loop_held_in"` // Size | Head
+	Held    string `json:"old_loop_held_in"` // Size | Head (before the reading) | SizeDone | HeadDone (after it)
 	DueInMs int    `json:"job_due_in_ms"`
 	Fired   int32  `json:"execs"`
 	WaitOK  bool   `json:"wait_returned"`
@@ -761,7 +762,11 @@ func runStaleTimer(trial int, heldIn string, dueIn time.Duration) staleTimerResu
 	q.gated.Store(true)
 	s, _ := quartz.NewStdScheduler(quartz.WithQueue(q, &sync.Mutex{}), quartz.WithOutdatedThreshold(time.Hour))
 	defer func() { within(9*time.Second, func() { q.shutdown(s) }) }()
-	s.ScheduleJob(detail("far", func(context.Context) error { return nil }), relTrigger(time.Hour, 2*time.Hour))
+	if heldIn != "SizeDone" {
+		s.ScheduleJob(detail("far", func(context.Context) error { return nil }), relTrigger(time.Hour, 2*time.Hour))
+	} else {
+		q.sizeDone.Store(true) // empty queue: the old loop's reading is "nothing stored"
+	}
 	s.Start(context.Background())
 	var held rArrival
 	for {
@@ -779,6 +784,7 @@ func runStaleTimer(trial int, heldIn string, dueIn time.Duration) staleTimerResu
 		close(a.rel)
 	}
 	q.gated.Store(false) // the new run's calls are not stalled
+	q.sizeDone.Store(false)
 	s.Stop()
 	s.Start(context.Background())
 	var ran atomic.Int32
